@@ -107,7 +107,13 @@ async def run_history(
 ) -> tuple[Outcome | None, dict]:
     """Execute the history (optionally with the library logging at DEBUG). Returns (violation or None, info)."""
     with env.debug_logging(bool(case.get("debug_log"))):
-        return await _run_history(case, aspects, hooks=hooks)
+        bad, info = await _run_history(case, aspects, hooks=hooks)
+    tmpdir = info.pop("tmpdir", None)
+    if tmpdir is not None:
+        import shutil
+
+        shutil.rmtree(tmpdir, ignore_errors=True)
+    return bad, info
 
 
 async def _run_history(
@@ -121,7 +127,7 @@ async def _run_history(
     metric = case.get("metric", True)
     registry = case.get("registry") or {}
     model = RefController(version, metric=metric, registry=registry)
-    gateway, transport = env.make_gateway(version, metric=metric)
+    gateway, transport = env.make_gateway(version, metric=metric, ctx=case.get("ctx"))
     env.install_registry(gateway.nodes, registry)
     if "setup" in hooks:
         hooks["setup"](gateway, transport, model)
@@ -146,6 +152,46 @@ async def _run_history(
             await gateway.__aenter__()
             info["in_session"] = True
             classes["session-restart"] += 1
+            continue
+        if kind in ("save", "reload"):
+            # the registry is written to its persistence file (scheduled save, or leaving the gateway context) / read back
+            # from it (entering the context again): Persistence shares the gateway's registry dict, as Gateway builds it
+            if "persistence" not in info:
+                import os
+                import tempfile
+
+                from aiomysensors.persistence import Persistence
+
+                info["tmpdir"] = tempfile.mkdtemp(prefix="vfhist-", dir="/dev/shm" if os.path.isdir("/dev/shm") else None)
+                info["persistence"] = Persistence(gateway.nodes, os.path.join(info["tmpdir"], "registry.json"))
+                info["saved"] = None
+            import copy
+
+            try:
+                if kind == "save":
+                    await info["persistence"].save()
+                    info["saved"] = copy.deepcopy(model.nodes)
+                else:
+                    await info["persistence"].load()
+                    if info["saved"] is None:
+                        info["saved"] = copy.deepcopy(model.nodes)  # a missing file is created from the current registry
+                    for key, saved_node in info["saved"].items():
+                        model.nodes[key] = copy.deepcopy(saved_node)  # every node in the file replaces the one in the registry
+                        model.reboot.discard(int(key))  # ... as a new object: an application flag on the old object is gone
+            except Exception as err:  # noqa: BLE001
+                if "leak" in aspects or "registry" in aspects:
+                    return bad(f"{kind}-raises:{type(err).__name__}", f"{err!r}", idx), info
+                info["diverged"] = True
+                classes["diverged-elsewhere"] += 1
+                return None, info
+            classes[f"op:{kind}"] += 1
+            if env.snapshot(gateway.nodes) != model.nodes:
+                if "registry" in aspects or "idalloc" in aspects:
+                    diff = _first_diff(model.nodes, env.snapshot(gateway.nodes))
+                    return bad(f"registry-changed-by-{kind}:{diff[0]}", f"registry differs at {diff[1]}: model {diff[2]!r}, gateway {diff[3]!r}", idx), info
+                info["diverged"] = True
+                classes["diverged-elsewhere"] += 1
+                return None, info
             continue
         if kind == "sleep":
             await asyncio.sleep(float(op[1]))  # meaningful on the virtual-time loop
@@ -266,6 +312,13 @@ async def _run_history(
                     ),
                     info,
                 )
+            if "writes" in aspects and tuple(pred.outcomes) == ("ok",) and rec.outcome in LIBERR_FAMILY:
+                # the message is fine by the model and a reaction is owed, but it was refused and the reaction never written
+                owed_missing = Counter(pred.reactions) - Counter(rec.writes)
+                if pred.time_reply is not None and not any(TIMEREPLY.match(w) for w in rec.writes):
+                    owed_missing["<time reply>"] += 1
+                if owed_missing:
+                    return bad(f"reaction-refused:{mk}:{rec.outcome}", f"owed {sorted(owed_missing)!r} but the message was refused: {rec.value!r}", idx), info
             info["diverged"] = True
             classes["diverged-elsewhere"] += 1
             return None, info
